@@ -532,7 +532,9 @@ pub(super) fn simplify(
     value: &ast::TypedPattern,
 ) -> Result<Pattern, Error> {
     match value {
-        ast::Pattern::Int { value, .. } => Ok(Pattern::Literal(Literal::Int(value.clone()))),
+        ast::Pattern::Int { value, .. } => Ok(Pattern::Literal(Literal::Int(
+            ast::canonical_int_literal(value),
+        ))),
         ast::Pattern::ByteArray { value, .. } => {
             Ok(Pattern::Literal(Literal::ByteArray(value.clone())))
         }
